@@ -95,3 +95,35 @@ Theorem C05_copy_same_listing_repeated : forall env p k, sized_prog p ->
   listing env (copy_nodes env (repeat_nodes env (run_prog env p) k)) = listing env (repeat_nodes env (run_prog env p) k).
 Proof. exact prog_repeated_copy_same_listing. Qed.
 Print Assumptions C05_copy_same_listing_repeated.
+
+(* ---- the value-based identity of sub-circuits and copy()'s relation transfer lookup (C05/Keys.v; findings F12, F21) ---- *)
+From QCE Require Import C05.Keys C05.KeysProofs.
+From Gen Require Flags.
+(* a dict keyed by pairwise distinct sub-circuit keys re-points every relation to the copy of ITS referent *)
+Theorem C05_transfer_lookup_faithful : forall ks, NoDup ks -> transfer_faithful ks.
+Proof. exact nodup_transfer_faithful. Qed.
+Print Assumptions C05_transfer_lookup_faithful.
+(* the two places of the CURRENT source that hand relation links down (the listing's hand-off, the first operations of an unrolled
+   copy; Gen/Flags.v (i)) give every operation its own link instance, so the keys stay pairwise distinct whatever the repetition
+   counts are and the transfer lookup stays faithful.  If either place assigns one shared object this statement no longer
+   type-checks (the flags are generated from the source). *)
+Theorem C05_handoff_keeps_lookup_faithful : forall old next reps,
+  NoDup old -> (forall k, In k old -> (fst k < next)%nat) ->
+  transfer_faithful (old ++ assign Flags.handoff_link_fresh_per_node next reps).
+Proof. exact fresh_links_transfer_faithful. Qed.
+Print Assumptions C05_handoff_keeps_lookup_faithful.
+Theorem C05_extend_keeps_lookup_faithful : forall old next reps,
+  NoDup old -> (forall k, In k old -> (fst k < next)%nat) ->
+  transfer_faithful (old ++ assign Flags.extend_link_fresh_per_node next reps).
+Proof. exact fresh_links_transfer_faithful. Qed.
+Print Assumptions C05_extend_keeps_lookup_faithful.
+(* one link object shared by the first operations (the code before ceaf0e5 / c6503c2): two sub-circuits with equal repetition
+   counts collide and the first is answered with the copy of the second -- F12 and F21 *)
+Theorem C05_shared_link_refuted : exists reps, let ks := assign false 0 reps in
+  exists i j k, i <> j /\ nth_error ks i = Some k /\ lookup (table_of ks) k = Some j.
+Proof. exact shared_link_collides. Qed.
+Print Assumptions C05_shared_link_refuted.
+(* ... which is why both defects needed EQUAL repetition counts *)
+Theorem C05_shared_link_distinct_counts : forall reps next, NoDup reps -> transfer_faithful (assign false next reps).
+Proof. exact shared_link_distinct_reps_ok. Qed.
+Print Assumptions C05_shared_link_distinct_counts.
